@@ -8,7 +8,7 @@ from hypothesis import strategies as st
 from quantity import Quantity
 import quantity.predefined as pre  # noqa: F401
 
-from .. import cat, gen
+from .. import cat, gen, universe
 from ..model import F, dec_places, fs, is_dec_repr, mknum
 from ..runner import Part
 
@@ -86,7 +86,8 @@ def enum_unitpairs(shard, nshards):
 def parts(tier):
     big = tier == "thorough"
     return [Part("cmp", "hyp", strategy=gen_cmp(), n=800000 if big else 40000),
-            Part("units", "enum", enum=enum_unitpairs, exhaustive=True, shards=16)]
+            Part("units", "enum", enum=enum_unitpairs, exhaustive=True, shards=16),
+            Part("universe", "hyp", strategy=universe.gen_linear_case(n_max=6), n=100000 if big else 5000, chunk=1500)]
 
 
 def run_case(case, ctx):
@@ -107,9 +108,31 @@ def run_case(case, ctx):
                 ctx.viol(f"units/{name}", f"{u!r} {name} {v!r} is {got!r}; scales {fs(su)} {name} {fs(sv)} is {op(su, sv)}")
         return
     ctx.label("cases")
-    qs = [Quantity(mknum(d["amt"]), cat.unit(d["u"])) for d in case["qs"]]
-    refs = [F(q.amount) * cat.scale(d["u"]) for q, d in zip(qs, case["qs"])]
-    syms = [d["u"] for d in case["qs"]]
+    if k == "u_lin":
+        built = universe.build_linear_case(case, ctx)
+        if built is None:
+            return
+        qs, refs, mus, _ = built
+        syms = [mu.uid for mu in mus]
+        scale_of = {id(q.unit): mu.factor for q, mu in zip(qs, mus)}
+        # units of generated types compare by their model scale, too
+        for (qa, ma) in zip(qs, mus):
+            for (qb, mb) in zip(qs, mus):
+                for name, op in OPS.items():
+                    try:
+                        got = op(qa.unit, qb.unit)
+                    except Exception as exc:  # noqa: BLE001
+                        ctx.viol(f"u_units/{name}/raises/{type(exc).__name__}", f"{qa.unit!r} {name} {qb.unit!r} raised "
+                                 f"{type(exc).__name__}: {exc}")
+                        continue
+                    if got is not op(ma.factor, mb.factor):
+                        ctx.viol(f"u_units/{name}", f"{qa.unit!r} {name} {qb.unit!r} [{ma.how},{mb.how}] is {got}; model "
+                                 f"scales {fs(ma.factor)} {name} {fs(mb.factor)}")
+    else:
+        qs = [Quantity(mknum(d["amt"]), cat.unit(d["u"])) for d in case["qs"]]
+        refs = [F(q.amount) * cat.scale(d["u"]) for q, d in zip(qs, case["qs"])]
+        syms = [d["u"] for d in case["qs"]]
+        scale_of = None
     if len(set(syms)) > 1:
         ctx.nontrivial()
         ctx.label("different_units")
@@ -152,6 +175,8 @@ def run_case(case, ctx):
         if any(g is not w for g, w in zip(got, want)):
             ctx.viol("sorted/order", f"sorted({qs!r}) = {got!r}; stable sort by reference value gives {want!r}")
         mx, mn = max(qs), min(qs)
-        if F(mx.amount) * cat.scale(mx.unit.symbol) != max(refs) or \
-                F(mn.amount) * cat.scale(mn.unit.symbol) != min(refs):
+
+        def _sc(q):
+            return scale_of[id(q.unit)] if scale_of is not None else cat.scale(q.unit.symbol)
+        if F(mx.amount) * _sc(mx) != max(refs) or F(mn.amount) * _sc(mn) != min(refs):
             ctx.viol("sorted/minmax", f"max/min of {qs!r} = {mx!r}/{mn!r}")
